@@ -1,7 +1,7 @@
 (* CFOrientation.set_orientation translated from /repo's current source (TranslatedImpCFOrientation.v, regenerated on every run by tools/translate_imp.py)
    refines set_orientation of Model/Machines.v: on dictionaries representing an orientation state it ends with a KeyError - and untouched dictionaries -
    exactly when the model refuses (unknown endpoint or no edge), and otherwise all five fields represent the model's next state. *)
-From Coq Require Import ZArith List Lia Bool Arith.
+From Coq Require Import ZArith List Lia Bool Arith Permutation.
 Import ListNotations.
 From CF Require Import ZSum ListAux Defs Core Machines GraphLink MachinesLink OrientLink PyDict ImpRep TranslatedImpCFOrientation.
 Open Scope Z_scope.
@@ -105,3 +105,92 @@ Proof. intros Hinv (Ho & Hout & Hin & Hf1 & Hf2) Hst. unfold CFOrientation_set_o
   all: repeat (apply rep_div_bump; [| assumption | repeat (rewrite BN by (rewrite ?bump_length; assumption)); rewrite ?Nat.eqb_refl, ?Eab, ?Eba, ?La, ?Lb; lia]); try exact Hout; try exact Hin.
 Qed.
 End SO.
+
+(* ---- CFOrientation.check_fullness, get_in_degree, get_out_degree ---- *)
+Lemma forallb_same {A B} (f : A -> bool) (h : B -> bool) l l' :
+  ((forall x, In x l -> f x = true) <-> (forall y, In y l' -> h y = true)) -> forallb f l = forallb h l'.
+Proof. intros [H1 H2]. destruct (forallb f l) eqn:E1, (forallb h l') eqn:E2; try reflexivity.
+  - rewrite forallb_forall in E1. pose proof (H1 E1) as Q. apply forallb_forall in Q. congruence.
+  - rewrite forallb_forall in E2. pose proof (H2 E2) as Q. apply forallb_forall in Q. congruence. Qed.
+
+Section CF.
+Variable g : graph.
+Hypothesis Hwf : wfb g = true.
+Variable gg : dictD.
+Hypothesis Hgg : rep_graph gg g.
+Variables (oo : dictD) (s : ostate).
+Hypothesis Ho : rep_orient oo g s.
+Local Notation n := (nv g).
+
+Definition cf_inner (v1 : nat) (acc_ : pyres (bool * bool) (option bool * (bool * bool))) (v2 : nat) : pyres (bool * bool) (option bool * (bool * bool)) :=
+  match acc_ with PyExn e_ => PyExn e_ | PyOk (Some r_, (self_is_full, self_is_full_checked)) => PyOk (Some r_, (self_is_full, self_is_full_checked)) | PyOk (None, (self_is_full, self_is_full_checked)) =>
+  if (Nat.ltb v1 v2) then
+  match d_find v1 oo with None => PyExn (self_is_full, self_is_full_checked) | Some t2_ =>
+  match d_find v2 t2_ with None => PyExn (self_is_full, self_is_full_checked) | Some t3_ =>
+  if (t3_ =? 0) then
+  let self_is_full := false in
+  let self_is_full_checked := true in
+  PyOk (Some (false), (self_is_full, self_is_full_checked))
+  else
+  PyOk (None, (self_is_full, self_is_full_checked)) end end
+  else
+  PyOk (None, (self_is_full, self_is_full_checked)) end.
+Definition okw (v1 w : nat) : bool := negb (Nat.ltb v1 w && (dir_at s v1 w =? 0)).
+
+Lemma cf_inner_some v1 ks r st : fold_left (cf_inner v1) ks (PyOk (Some r, st)) = PyOk (Some r, st).
+Proof. induction ks as [|w ks IH]; [reflexivity|]. cbn [fold_left]. destruct st as [a b]. exact IH. Qed.
+Lemma cf_inner_loop v1 : (v1 < n)%nat -> forall ks a b, (forall w, In w ks -> 0 < mult g v1 w) ->
+  fold_left (cf_inner v1) ks (PyOk (None, (a, b))) = if forallb (okw v1) ks then PyOk (None, (a, b)) else PyOk (Some false, (false, true)).
+Proof. intros Hv. pose proof (Ho v1) as Hr. assert (E : Nat.ltb v1 n = true) by (apply Nat.ltb_lt; exact Hv). rewrite E in Hr. destruct Hr as (row & Er & _ & Fr).
+  induction ks as [|w ks IH]; intros a b Hk; [reflexivity|]. cbn [fold_left forallb]. unfold cf_inner at 2. unfold okw at 1.
+  destruct (Nat.ltb v1 w); cbn [andb negb]; [|apply IH; intros; apply Hk; now right].
+  rewrite Er, (Fr w). pose proof (Hk w (or_introl eq_refl)) as Hw. destruct (Z.ltb_spec 0 (mult g v1 w)); [|lia].
+  destruct (dir_at s v1 w =? 0); cbn [negb andb]; [apply cf_inner_some|apply IH; intros; apply Hk; now right]. Qed.
+
+Definition cf_outer (acc_ : pyres (bool * bool) (option bool * (bool * bool))) (v1 : nat) : pyres (bool * bool) (option bool * (bool * bool)) :=
+  match acc_ with PyExn e_ => PyExn e_ | PyOk (Some r_, (self_is_full, self_is_full_checked)) => PyOk (Some r_, (self_is_full, self_is_full_checked)) | PyOk (None, (self_is_full, self_is_full_checked)) =>
+  match d_find v1 gg with None => PyExn (self_is_full, self_is_full_checked) | Some t1_ =>
+  match fold_left (cf_inner v1) (d_keys t1_) (PyOk (None, (self_is_full, self_is_full_checked))) with PyExn e_ => PyExn e_
+  | PyOk (Some r_, (self_is_full, self_is_full_checked)) => PyOk (Some r_, (self_is_full, self_is_full_checked))
+  | PyOk (None, (self_is_full, self_is_full_checked)) => PyOk (None, (self_is_full, self_is_full_checked)) end end end.
+Definition okv (v : nat) : bool := forallb (fun w => if (0 <? mult g v w) && Nat.ltb v w then negb (dir_at s v w =? 0) else true) (Vg g).
+
+Lemma cf_outer_some L r st : fold_left cf_outer L (PyOk (Some r, st)) = PyOk (Some r, st).
+Proof. induction L as [|v L IH]; [reflexivity|]. cbn [fold_left]. destruct st as [a b]. exact IH. Qed.
+Lemma row_ok v : (v < n)%nat -> exists row, d_find v gg = Some row /\ (forall w, In w (d_keys row) -> 0 < mult g v w) /\ forallb (okw v) (d_keys row) = okv v.
+Proof. intros Hv. pose proof (Hgg v) as Hr. assert (E : Nat.ltb v n = true) by (apply Nat.ltb_lt; exact Hv). rewrite E in Hr. destruct Hr as (row & Er & Nr & Fr).
+  exists row. split; [exact Er|]. assert (K : forall w, In w (d_keys row) <-> 0 < mult g v w).
+  { intros w. rewrite <- d_find_in_keys. unfold d_mem. rewrite Fr. destruct (Z.ltb_spec 0 (mult g v w)); split; intros; try lia; try discriminate; reflexivity. }
+  split; [intros w Hw; apply K; exact Hw|]. unfold okv. apply forallb_same. split.
+  - intros H w Hw. destruct (Z.ltb_spec 0 (mult g v w)) as [P|P]; cbn [andb]; [|reflexivity]. specialize (H w (proj2 (K w) P)). unfold okw in H.
+    destruct (Nat.ltb v w); cbn [andb negb] in *; [exact H|reflexivity].
+  - intros H w Hw. apply K in Hw. assert (Hin : In w (Vg g)). { apply in_seq. destruct (Nat.lt_ge_cases w n); [lia|]. rewrite (mult_out_r g Hwf) in Hw by assumption. lia. }
+    specialize (H w Hin). destruct (Z.ltb_spec 0 (mult g v w)); [|lia]. cbn [andb] in H. unfold okw. destruct (Nat.ltb v w); cbn [andb negb]; [exact H|reflexivity]. Qed.
+Lemma cf_outer_loop : forall L a b, (forall v, In v L -> (v < n)%nat) ->
+  fold_left cf_outer L (PyOk (None, (a, b))) = if forallb okv L then PyOk (None, (a, b)) else PyOk (Some false, (false, true)).
+Proof. induction L as [|v L IH]; intros a b HL; [reflexivity|]. cbn [fold_left forallb]. unfold cf_outer at 2.
+  destruct (row_ok v (HL v (or_introl eq_refl))) as (row & Er & Hk & Eq). rewrite Er, (cf_inner_loop v (HL v (or_introl eq_refl)) (d_keys row) a b Hk), Eq.
+  destruct (okv v); cbn [andb]; [apply IH; intros; apply HL; now right|apply cf_outer_some]. Qed.
+
+Lemma check_fullness_unfold isf isfc vs so : CFOrientation_check_fullness isf isfc vs gg oo so =
+  match fold_left cf_outer (so vs) (PyOk (None, (isf, isfc))) with PyExn e_ => PyExn e_ | PyOk (Some r_, (a, b)) => PyOk (r_, (a, b)) | PyOk (None, (a, b)) => PyOk (true, (true, true)) end.
+Proof. reflexivity. Qed.
+
+Theorem check_fullness_refines isf isfc vs so : rep_vset n vs -> (forall l, Permutation (so l) l) ->
+  CFOrientation_check_fullness isf isfc vs gg oo so = PyOk (full_b g s, (full_b g s, true)).
+Proof. intros Hvs Hso. rewrite check_fullness_unfold.
+  assert (HL : forall v, In v (so vs) -> (v < n)%nat).
+  { intros v Hv. apply (Permutation_in v (Hso vs)) in Hv. apply s_mem_In in Hv. rewrite (Hvs v) in Hv. apply Nat.ltb_lt. exact Hv. }
+  rewrite (cf_outer_loop (so vs) isf isfc HL).
+  assert (E : forallb okv (so vs) = full_b g s).
+  { unfold full_b. apply forallb_same. split.
+    - intros H v Hv. apply (H v). apply (Permutation_in v (Permutation_sym (Hso vs))). apply s_mem_In. rewrite (Hvs v). apply Nat.ltb_lt. apply in_seq in Hv. lia.
+    - intros H v Hv. apply (H v). apply in_seq. specialize (HL v Hv). lia. }
+  rewrite E. destruct (full_b g s); reflexivity. Qed.
+End CF.
+
+Theorem get_in_out_degree_refines g gg ind outd s v : rep_graph gg g -> rep_div (nv g) ind (inc s) -> rep_div (nv g) outd (outc s) ->
+  CFOrientation_get_in_degree gg ind v = (if Nat.ltb v (nv g) then PyOk (nthZ (inc s) v) else PyExn tt) /\
+  CFOrientation_get_out_degree gg outd v = (if Nat.ltb v (nv g) then PyOk (nthZ (outc s) v) else PyExn tt).
+Proof. intros Hg (_ & _ & Hi) (_ & _ & Ho). unfold CFOrientation_get_in_degree, CFOrientation_get_out_degree. rewrite (rep_graph_mem gg g v Hg), (Hi v), (Ho v).
+  destruct (Nat.ltb v (nv g)); split; reflexivity. Qed.
